@@ -85,8 +85,13 @@ class LoopInv:
             ip.add_pc(fact)
         if not ip.feasible():
             raise Infeasible()
+        guard = LoopGuard(ip, frame, list(tmpl.keys()), self.name)
         for path, val in tmpl.items():
-            self._set(ip, frame, path, _clone(val))
+            c = _clone(val)
+            self._set(ip, frame, path, c)
+            guard.note_installed(c)
+        ip.loop_guards.append(guard)
+        self._guard = guard
         for name in assigned:
             if name not in tmpl and not any(p.split('.')[0] == name for p in tmpl):
                 frame.vars[name] = Opaque('assigned in loop %s but not described by its invariant' % self.name)
@@ -97,6 +102,7 @@ class LoopInv:
         self._check(ip, frame, z3.IntVal(0), 'init')
         if ip.decide(fresh_bool(self.name + '-exit'), 'loop-exit'):
             self._havoc(ip, frame, n, assigned)
+            self._drop_guard(ip)
             if ip.decide(n > 0, 'loop-nonempty'):
                 ip.assign(st.target, seq.fn(n - 1), frame)
             ip.exec_block(st.orelse, frame)
@@ -111,9 +117,42 @@ class LoopInv:
         except ContinueSignal:
             pass
         except BreakSignal:
+            self._drop_guard(ip)
             return
+        except BaseException:
+            self._drop_guard(ip)
+            raise
+        self._end_body(ip, frame)
         self._check(ip, frame, k + 1, 'preserve')
         raise PathEnd()
+
+    def _drop_guard(self, ip):
+        if ip.loop_guards and ip.loop_guards[-1] is getattr(self, '_guard', None):
+            ip.loop_guards.pop()
+
+    def _end_body(self, ip, frame):
+        g = ip.loop_guards.pop()
+        described = set()
+        for path in g.paths:
+            parts = path.split('.')
+            if len(parts) > 1:
+                try:
+                    o = ip.lookup_name(parts[0], frame)
+                    for p_ in parts[1:-1]:
+                        o = o.fields[p_]
+                    described.add((id(o), parts[-1]))
+                except Exception:
+                    pass
+        for obj, attr, old, new in g.field_writes:
+            if (id(obj), attr) in described:
+                continue
+            if old is None and new is None:
+                continue
+            try:
+                same = veq(old, new)
+            except Unsupported:
+                same = z3.BoolVal(old is new)
+            ip.prove('%s/frame/%s.%s-unchanged' % (self.name, obj.cls_name(), attr), same)
 
     def run_while(self, ip, st, frame):
         assigned = _assigned_names(st.body)
@@ -122,8 +161,14 @@ class LoopInv:
         ip.add_pc(k >= 0)
         ip.ghost.setdefault('loop_k', {})[self.name] = k
         self._havoc(ip, frame, k, assigned)
-        c = ip.eval(st.test, frame)
-        if not ip.branch(c, 'while-cond'):
+        try:
+            c = ip.eval(st.test, frame)
+            taken = ip.branch(c, 'while-cond')
+        except BaseException:
+            self._drop_guard(ip)
+            raise
+        if not taken:
+            self._drop_guard(ip)
             ip.exec_block(st.orelse, frame)
             return
         try:
@@ -131,9 +176,65 @@ class LoopInv:
         except ContinueSignal:
             pass
         except BreakSignal:
+            self._drop_guard(ip)
             return
+        except BaseException:
+            self._drop_guard(ip)
+            raise
+        self._end_body(ip, frame)
         self._check(ip, frame, k + 1, 'preserve')
         raise PathEnd()
+
+
+def _reachable_containers(ip, frame):
+    """ids of all mutable containers / objects reachable from the frame chain."""
+    seen = {}
+    stack = []
+    f = frame
+    while f is not None:
+        stack.extend(f.vars.values())
+        f = f.parent
+    while stack:
+        v = stack.pop()
+        if isinstance(v, (list, dict, Seq, SymMap, Obj)):
+            if id(v) in seen:
+                continue
+            seen[id(v)] = v
+            if isinstance(v, list):
+                stack.extend(v)
+            elif isinstance(v, dict):
+                stack.extend(v.values())
+            elif isinstance(v, Obj):
+                stack.extend(v.fields.values())
+        elif isinstance(v, tuple):
+            stack.extend(v)
+        elif isinstance(v, (Closure,)):
+            pass
+    return seen
+
+
+class LoopGuard:
+    """soundness guard for the template form of invariants: everything the body mutates
+    must be described by the template (installed by havoc) or be created inside the body."""
+
+    def __init__(self, ip, frame, tmpl_paths, name):
+        self.pre = _reachable_containers(ip, frame)
+        self.installed = set()
+        self.paths = tmpl_paths
+        self.name = name
+        self.field_writes = []
+
+    def note_installed(self, v):
+        if isinstance(v, (list, dict, Seq, SymMap)):
+            self.installed.add(id(v))
+
+    def mutated(self, container):
+        if id(container) in self.pre and id(container) not in self.installed:
+            raise Unsupported('loop %s mutates a container that its invariant does not describe' % self.name)
+
+    def field_written(self, obj, attr, old, new):
+        if id(obj) in self.pre:
+            self.field_writes.append((obj, attr, old, new))
 
 
 def _clone(v):
